@@ -90,6 +90,15 @@ Section WithSwitches.
   Definition drv_answer (i : nat) (s : stmt) : option err :=
     if s_fail s then Some (err_at (EExec i) (s_fault s)) else None.
 
+  (* the driver calls statement i gives rise to. database/sql, Stmt.ExecContext -> DB.retry (sql.go:2635-2653):
+     a PREPARED statement answered with driver.ErrBadConn is executed again, 3 attempts in all, also inside
+     a transaction; Tx.ExecContext / Tx.QueryContext are not retried *)
+  Definition stmt_calls (i : nat) (s : stmt) : list call :=
+    match s_op s, s_fault s with
+    | SPrepExec, FKind KBadConn => repeat (Exec i false) 3
+    | _, _ => [Exec i (negb (s_fail s))]
+    end.
+
   (* running fn: the statements it issues (numbered from i) and how it ends *)
   Fixpoint run_stmts (i : nat) (ss : list stmt) (final : outcome) : outcome * list call :=
     match ss with
@@ -98,11 +107,11 @@ Section WithSwitches.
         match stmt_result sw (s_op s) (drv_answer i s) with
         | Some e =>
             match s_react s with
-            | RReturn => (OErr e, [Exec i (negb (s_fail s))])
-            | RPanic p => (OPanic p, [Exec i (negb (s_fail s))])
-            | RIgnore => let (o, cs) := run_stmts (S i) r final in (o, Exec i (negb (s_fail s)) :: cs)
+            | RReturn => (OErr e, stmt_calls i s)
+            | RPanic p => (OPanic p, stmt_calls i s)
+            | RIgnore => let (o, cs) := run_stmts (S i) r final in (o, stmt_calls i s ++ cs)
             end
-        | None => let (o, cs) := run_stmts (S i) r final in (o, Exec i (negb (s_fail s)) :: cs)
+        | None => let (o, cs) := run_stmts (S i) r final in (o, stmt_calls i s ++ cs)
         end
     end.
   Definition run_body (b : body) : outcome * list call := run_stmts 0 (b_stmts b) (b_final b).
